@@ -23,7 +23,7 @@ type Scenario struct {
 	// LQFaults[op][k] applies to the k-th call of the local queue's database operation op ("get", "add", "delete"):
 	// "" = succeeds, "err" = fails; a last entry "err*" keeps failing for ever.
 	LQFaults map[string][]string `json:"lq_faults,omitempty"`
-	Sched SchedCfg             `json:"sched"`
+	Sched    SchedCfg            `json:"sched"`
 
 	StopAtIdle bool `json:"stop_at_idle"`
 	IdleSec    int  `json:"idle_sec"`
@@ -39,6 +39,9 @@ type SchedCfg struct {
 	ReleaseWeight int  `json:"rel_w,omitempty"`
 	MaxSteps      int  `json:"max_steps,omitempty"`
 	MaxSimSec     int  `json:"max_sim_sec,omitempty"`
+	// Slow names a hook-point family whose goroutines are released SlowDiv times less often (overrides the per-run draw)
+	Slow    string `json:"slow,omitempty"`
+	SlowDiv int    `json:"slow_div,omitempty"`
 }
 
 type Cfg struct {
@@ -54,6 +57,7 @@ type Cfg struct {
 	RLCleanupSec         int      `json:"rl_cleanup_sec,omitempty"`
 	Proxy                bool     `json:"proxy,omitempty"`
 	AsyncWARC            bool     `json:"async_warc,omitempty"`
+	TempInWarcs          bool     `json:"temp_in_warcs,omitempty"` // --warc-temp-dir pointed at the directory the WARC files are written to
 	PoolSize             int      `json:"pool_size"`
 	WARCQueueSize        int      `json:"warc_queue_size,omitempty"`
 	OnDisk               bool     `json:"on_disk,omitempty"`
